@@ -603,7 +603,7 @@ func (p *jsonPathParser) pushCompareNE(
 
 func (p *jsonPathParser) pushCompareGE(
 	leftParam, rightParam *syntaxBasicCompareParameter) {
-	if leftParam.isLiteral {
+	if leftParam.isLiteral && !rightParam.isLiteral {
 		p.pushCompareLE(rightParam, leftParam)
 		return
 	}
@@ -612,7 +612,7 @@ func (p *jsonPathParser) pushCompareGE(
 
 func (p *jsonPathParser) pushCompareGT(
 	leftParam, rightParam *syntaxBasicCompareParameter) {
-	if leftParam.isLiteral {
+	if leftParam.isLiteral && !rightParam.isLiteral {
 		p.pushCompareLT(rightParam, leftParam)
 		return
 	}
@@ -621,7 +621,7 @@ func (p *jsonPathParser) pushCompareGT(
 
 func (p *jsonPathParser) pushCompareLE(
 	leftParam, rightParam *syntaxBasicCompareParameter) {
-	if leftParam.isLiteral {
+	if leftParam.isLiteral && !rightParam.isLiteral {
 		p.pushCompareGE(rightParam, leftParam)
 		return
 	}
@@ -630,7 +630,7 @@ func (p *jsonPathParser) pushCompareLE(
 
 func (p *jsonPathParser) pushCompareLT(
 	leftParam, rightParam *syntaxBasicCompareParameter) {
-	if leftParam.isLiteral {
+	if leftParam.isLiteral && !rightParam.isLiteral {
 		p.pushCompareGT(rightParam, leftParam)
 		return
 	}
